@@ -34,6 +34,9 @@ type BoundedSpec struct {
 	File     string `json:"file"`
 }
 
+// lastBoundedRuns carries the bounded stand-in results into the evidence.
+var lastBoundedRuns []map[string]any
+
 func main() {
 	if len(os.Args) < 2 {
 		fmt.Fprintln(os.Stderr, "usage: govc check|dump ...")
@@ -321,6 +324,36 @@ func cmdCheck(argv []string) int {
 		fmt.Fprintf(os.Stderr, "govc: VACUITY: %s is unreachable / assumptions are contradictory (%s)\n", r.Obl.Name, r.Obl.Pos)
 		emitViolation(r.Obl.Name, "undecided: vacuity guard failed: "+r.Obl.Name+" at "+r.Obl.Pos.String()+" is unreachable under the contract's assumptions, so obligations behind it would hold vacuously.\n", false)
 	}
+	// Bounded stand-ins: functions outside the verifier's reach are exercised
+	// exhaustively up to a stated bound on the real code (never counted as
+	// proved).  Skipped when only part of the property is being looked at.
+	boundedRuns := []map[string]any{}
+	if *only == "" {
+		for _, b := range cfg.Bounded {
+			if b.Test == "" {
+				continue
+			}
+			bstart := time.Now()
+			os.Setenv("GOVC_BOUND_TIER", *tier)
+			out, failedRun, err := runReplayTest(*repo, root, scratch, ReplaySpec{Pkg: b.Pkg, File: b.File, Test: b.Test}, map[string]string{})
+			rec := map[string]any{"function": b.Function, "bound": b.Bound, "test": b.Test, "counted_as_proved": false, "wall_s": time.Since(bstart).Seconds()}
+			switch {
+			case err != nil:
+				rec["result"] = "could not run"
+				emitViolation("bounded-"+b.Test, "undecided: the bounded stand-in "+b.Test+" could not be built or run:\n"+out+"\n"+err.Error()+"\n", false)
+			case failedRun:
+				rec["result"] = "failed"
+				emitViolation("bounded-"+b.Test, "property: "+cfg.ID+"\nfailed obligation: bounded-"+b.Test+"\nkind: bounded stand-in (not a proof obligation)\nbound: "+b.Bound+"\nThe bounded check failed on the real code:\n"+out+"\n", true)
+			default:
+				rec["result"] = "held on everything enumerated"
+			}
+			boundedRuns = append(boundedRuns, rec)
+			if *verbose {
+				fmt.Fprintf(os.Stderr, "bounded %s: %v (%.1fs)\n", b.Test, rec["result"], rec["wall_s"])
+			}
+		}
+	}
+	lastBoundedRuns = boundedRuns
 	for _, d := range disagreements {
 		fmt.Fprintf(os.Stderr, "govc: solver disagreement on %s\n", d)
 		exit = 2
@@ -512,8 +545,12 @@ func writeEvidence(root string, cfg *PropConfig, tier string, seed int, results 
 			n++
 		}
 	}
-	for _, b := range cfg.Bounded {
-		cov.Bounded = append(cov.Bounded, map[string]any{"function": b.Function, "bound": b.Bound, "counted_as_proved": false})
+	if len(lastBoundedRuns) > 0 {
+		cov.Bounded = lastBoundedRuns
+	} else {
+		for _, b := range cfg.Bounded {
+			cov.Bounded = append(cov.Bounded, map[string]any{"function": b.Function, "bound": b.Bound, "counted_as_proved": false})
+		}
 	}
 	for _, a := range cfg.Assumptions {
 		assume[a] = true
